@@ -9,9 +9,9 @@ ALL_KEYS = STR_KEYS + NUM_KEYS + ['issue', 'counter']
 
 BK = r'[^\s,{}#]+'
 _re_braced = re.compile(r'^([^{}]+)\{(%s(?:,%s)*)\}$' % (BK, BK))
-_re_open = re.compile(r'^([^{}]+)\{((?:%s,)*)$' % BK)
-_re_mid = re.compile(r'^(?:%s,)+$' % BK)
-_re_close = re.compile(r'^%s(?:,%s)*\}$' % (BK, BK))
+_re_open = re.compile(r'^([^{}]+)\{((?:%s(?:,%s)*)?)(,?)$' % (BK, BK))
+_re_mid = re.compile(r'^(,?)(%s(?:,%s)*)(,?)$' % (BK, BK))
+_re_close = re.compile(r'^(,?)((?:%s(?:,%s)*)?)\}$' % (BK, BK))
 _re_int = re.compile(r'^-?(0|[1-9][0-9]{0,8})$')
 _re_dec = re.compile(r'^(0|[1-9][0-9]{0,8})(\.[0-9]{1,8})?$')
 # characters the lexer refuses to reason about (Go's and Python's notions of
@@ -29,8 +29,8 @@ def canon_float(f):
     return s
 
 
-def L(k, key='', val='', bs=()):
-    return {'k': k, 'key': key, 'val': val, 'bs': list(bs)}
+def L(k, key='', val='', bs=(), lead=False, trail=False):
+    return {'k': k, 'key': key, 'val': val, 'bs': list(bs), 'lead': bool(lead), 'trail': bool(trail)}
 
 
 def lex_line(line):
@@ -55,7 +55,7 @@ def lex_line(line):
                     return L('field', key, m.group(1), m.group(2).split(','))
                 m = _re_open.match(val)
                 if m and m.group(1).strip(' \t') == m.group(1):
-                    return L('copen', key, m.group(1), [b for b in m.group(2).split(',') if b])
+                    return L('copen', key, m.group(1), [b for b in m.group(2).split(',') if b], False, m.group(3) == ',')
                 return L('junk')
             if '{' in val or '}' in val:
                 return L('junk')
@@ -69,10 +69,12 @@ def lex_line(line):
                 return L('field', key, canon_float(val))
             return L('field', key, val)
     t = text.strip(' \t')
-    if _re_mid.match(t):
-        return L('cmid', '', '', [b for b in t.split(',') if b])
-    if _re_close.match(t):
-        return L('cclose', '', '', t[:-1].split(','))
+    m = _re_mid.match(t)
+    if m:
+        return L('cmid', '', '', m.group(2).split(','), m.group(1) == ',', m.group(3) == ',')
+    m = _re_close.match(t)
+    if m:
+        return L('cclose', '', '', [b for b in m.group(2).split(',') if b], m.group(1) == ',', False)
     return L('junk')
 
 
@@ -195,37 +197,17 @@ class Concretizer:
                 v = self.value(ln['val'], ln['key'])
             return rk + ':' + sp + v + self.trail()
         indent = rng.choice(['', ' ', '  ', '\t', '    '])
+        body = (',' if ln.get('lead') else '') + ','.join(self.bucket(b) for b in ln['bs']) + (',' if ln.get('trail') else '')
         if k == 'copen':
-            return 'counter:' + sp + self.value(ln['val'], 'counter:braced') + '{' + ''.join(self.bucket(b) + ',' for b in ln['bs']) + self.trail()
+            return 'counter:' + sp + self.value(ln['val'], 'counter:braced') + '{' + body + self.trail()
         if k == 'cmid':
-            return indent + ''.join(self.bucket(b) + ',' for b in ln['bs']) + self.trail()
+            return indent + body + self.trail()
         if k == 'cclose':
-            return indent + ','.join(self.bucket(b) for b in ln['bs']) + '}' + self.trail()
+            return indent + body + '}' + self.trail()
         raise ValueError(k)
 
-    def text(self, lines, leading_commas=False):
-        out = [self.line(ln) for ln in lines]
-        if leading_commas:
-            # the other comma style inside an open bucket list: the comma that ends a
-            # line moves to the start of the next line that has buckets
-            kinds = [ln['k'] for ln in lines]
-            carry = False
-            for i, k in enumerate(kinds):
-                if k in ('copen', 'cmid', 'cclose'):
-                    body, sepc, cm = out[i].partition('#')
-                    if carry and k != 'copen':
-                        ind = body[:len(body) - len(body.lstrip(' \t'))]
-                        body = ind + ',' + body.lstrip(' \t')
-                        carry = False
-                    if k in ('copen', 'cmid') and lines[i]['bs']:
-                        st = body.rstrip(' \t')
-                        if st.endswith(','):
-                            body = st[:-1] + body[len(st):]
-                            carry = True
-                    elif k == 'copen':
-                        carry = False
-                    out[i] = body + sepc + cm
-        return '\n'.join(out)
+    def text(self, lines):
+        return '\n'.join(self.line(ln) for ln in lines)
 
 
 def rng_suffix(rng):
